@@ -12,6 +12,7 @@ from harness import core, env
 from harness.core import budget
 from engines import bench, benchgen, programs
 from refchem.model import RefCfg, prefix_f, split_unit
+from refchem import parse as rparse
 
 ID = 'C18'
 SHARDS = {'quick': 8, 'thorough': 16}
@@ -87,7 +88,30 @@ def grains(cfgs, world, names, fam, unit_prefix):
             g += per * abs(sp.factor(fam))
         if fam == 'L':
             g += cfg.grain * cfg.vol_mult
+        # a request is rounded to internal precision in ITS base unit (g, L, mol, U) before it is used: one such grain
+        # of the substance, expressed in the answer's family (1e-10 g of an enzyme of 73.8 U/mg is 7.4e-6 U)
+        for n in names:
+            sp = world.ref.subs[n]
+            for rfam in ('g', 'L', 'mol', 'U'):
+                f = abs(sp.factor(rfam))
+                if f > 0 and math.isfinite(f) and math.isfinite(sp.factor(fam)):
+                    g += cfg.grain * abs(sp.factor(fam)) / f
     return g / prefix_f(unit_prefix)
+
+
+def min_request(ops):
+    """smallest positive requested quantity (in its base unit) among the steps: its rounding grain is relative to it"""
+    vals = []
+    for op in ops:
+        q = op.get('q')
+        if isinstance(q, str):
+            try:
+                v, _ = rparse.quantity(q)
+            except rparse.Unreadable:
+                continue
+            if v > 0:
+                vals.append(float(v))
+    return max(min(vals) if vals else 1.0, 1e-12)
 
 
 def compare_values(a, b, tol, rel=1e-7):
@@ -191,6 +215,9 @@ def judge_history(col, world, reads, base, other, bw, ow, case):
             mols += [x for n, x in b.items() if x > 0 and not world.ref.subs[n].enzyme]
     min_vol = max(min(vols) if vols else 1e-5, 1e-9)
     min_mol = max(min(mols) if mols else 1e-7, 1e-12)
+    enz = [x for e in world.pool if e.kind in ('c', 'p') for _, w in programs.wells_of(e.view)
+           for n, x in world.base(w).items() if x > 0 and world.ref.subs[n].enzyme]
+    min_enz = max(min(enz) if enz else 1.0, 1e-9)
     for r, a, b in zip(reads, base['reads'], other['reads']):
         if ('exc' in a) != ('exc' in b) or ('exc' in a and a['exc'] != b['exc']):
             col.report(f"config={tag}/read-outcome-differs/{r['read']}", {'read': r, 'baseline': a, 'other': b}, case)
@@ -203,7 +230,8 @@ def judge_history(col, world, reads, base, other, bw, ow, case):
         # handled, and grain of an amount / the smallest amount; taken per operation of the history
         gvol = sum(c.grain * c.vol_mult + sum(c.grain * (1.0 if sp.enzyme else c.mol_mult) * abs(sp.factor('L'))
                                               for sp in world.ref.subs.values()) for c in cfgs)
-        rel = K * (gvol / min_vol + sum(c.grain * c.mol_mult for c in cfgs) / min_mol) + 2e-8
+        rel = K * (gvol / min_vol + sum(c.grain * c.mol_mult for c in cfgs) / min_mol + sum(c.grain for c in cfgs) / min_enz +
+                   sum(c.grain for c in cfgs) / min_request(world.history)) + 2e-8
         if r.get('conc'):
             ok = compare_values(a['v'], b['v'], 2 * max(c.grain for c in cfgs), rel=rel)
         else:
@@ -243,7 +271,34 @@ def gen_queries(draw, prog, world_subs_n):
     return qs
 
 
-def judge_program(col, prog, queries, base, other, bw, ow, case, ref):
+def program_scales(pp, prog):
+    """smallest volume (L), non-enzyme amount (mol) and enzyme amount (U) handled anywhere in the eager fold of prog"""
+    world = bench.World(pp, subs_json=prog['subs'])
+    eager = programs.run_eager(pp, world.real, prog)
+    vols, mols, enz = [], [], []
+    for snap in eager.snapshots:
+        for v in snap.values():
+            for _, w in programs.wells_of(v):
+                b = world.base(w)
+                x = world.ref.size(b, 'L')
+                if x > 0:
+                    vols.append(x)
+                for n, a in b.items():
+                    if a > 0:
+                        (enz if world.ref.subs[n].enzyme else mols).append(a)
+    for s_ in programs.real_steps(prog):
+        if isinstance(s_.get('q'), str):
+            try:
+                v, fam = rparse.quantity(s_['q'])
+            except rparse.Unreadable:
+                continue
+            if fam == 'L' and v > 0:
+                vols.append(float(v))
+    return (max(min(vols) if vols else 1e-5, 1e-9), max(min(mols) if mols else 1e-7, 1e-12),
+            max(min(enz) if enz else 1.0, 1e-9))
+
+
+def judge_program(col, prog, queries, base, other, bw, ow, case, ref, scales=None):
     tag = ow.name
     if 'crash' in other or 'crash' in base:
         which = other if 'crash' in other else base
@@ -281,7 +336,16 @@ def judge_program(col, prog, queries, base, other, bw, ow, case, ref):
                 tol += K * c.grain * (1.0 if sp.enzyme else c.mol_mult) * abs(sp.factor(fam)) / prefix_f(pu)
             if fam == 'L':
                 tol += K * c.grain * c.vol_mult / prefix_f(pu)
-        if not compare_values(a['v'], b['v'], tol, rel=(4 * nsteps + 8) * 1e-7):
+        # relative effect of one storage grain on an aliquot ratio, per step (as for direct histories)
+        rel = K * 1e-7
+        if scales is not None:
+            min_vol, min_mol, min_enz = scales
+            gvol = sum(c.grain * c.vol_mult + sum(c.grain * (1.0 if sp.enzyme else c.mol_mult) * abs(sp.factor('L'))
+                                                  for sp in ref.subs.values()) for c in (bw.cfg, ow.cfg))
+            rel += K * (gvol / min_vol + sum(c.grain * c.mol_mult for c in (bw.cfg, ow.cfg)) / min_mol +
+                        sum(c.grain for c in (bw.cfg, ow.cfg)) / min_enz +
+                        sum(c.grain for c in (bw.cfg, ow.cfg)) / min_request(programs.real_steps(prog)))
+        if not compare_values(a['v'], b['v'], tol, rel=rel):
             col.report(f"config={tag}/tracking-answer-differs/{q['q']}", {'query': q, 'baseline': a['v'], 'other': b['v']}, case)
             return
 
@@ -342,9 +406,11 @@ def run(col):
                 script = {'kind': 'program', 'prog': prog, 'queries': queries}
                 base = bw.ask(script)
                 kinds = sorted({s['op'] for s in prog['steps']})
+                scales = program_scales(pp, prog)
                 for ow in others:
                     case = {'config': ow.overrides, 'baseline_config': bw.overrides, 'script': script}
-                    judge_program(col, prog, queries, base, ow.ask(script), bw, ow, case, bench.World(pp, subs_json=prog['subs']).ref)
+                    judge_program(col, prog, queries, base, ow.ask(script), bw, ow, case,
+                                  bench.World(pp, subs_json=prog['subs']).ref, scales)
                     if len(prog['steps']) >= 3:
                         col.nontrivial_key(f"prog|{ow.name}|{'+'.join(kinds)}")
             return test
@@ -373,8 +439,9 @@ def replay(col, case):
                     break
             judge_history(col, world, script['reads'], base, other, bw, ow, case)
         else:
+            pp = core.env.bootstrap()
             judge_program(col, script['prog'], script['queries'], base, other, bw, ow, case,
-                          bench.World(core.env.bootstrap(), subs_json=script['prog']['subs']).ref)
+                          bench.World(pp, subs_json=script['prog']['subs']).ref, program_scales(pp, script['prog']))
     finally:
         bw.close()
         ow.close()
